@@ -6,7 +6,7 @@ package main
 // type {-,3,99}, direction {-,0,1}, stop {-,S}, trip descriptor {- | trip_id {-,T} x route
 // {-,R1,R2} x direction {-,0,1} x start_time {-,ok} x start_date {-,ok} x schedule_relationship {-,CANCELED,SCHEDULED}} = 23 436 selectors.
 // Alerts: every single selector; all ordered pairs over a 120-selector sub-alphabet that
-// contains every interaction class, in one alert and split over two alerts; alerts of 9..257 selectors (3 strides x 4 offsets over the 120; one alert or three); thorough: all
+// contains every interaction class, in one alert and split over two alerts; the 120 selectors under America/Santiago, Havana and Asuncion with start dates on the day those zones spring forward at midnight; alerts of 9..257 selectors (3 strides x 4 offsets over the 120; one alert or three); thorough: all
 // triples over 24 selectors and all pairs (one from the 120, one from all 7 884).
 // Oracle: a reference normaliser written from the statement (refAlert), compared entity by
 // entity for the per-selector part and as a set for the fall-back routes; output invariants
@@ -15,8 +15,10 @@ package main
 
 import (
 	"fmt"
+	"regexp"
 	"sort"
 	"strings"
+	"time"
 
 	"github.com/jamespfennell/gtfs"
 	gtfsrt "github.com/jamespfennell/gtfs/proto"
@@ -137,13 +139,38 @@ func init() {
 	}
 }
 
+// c12Zone / c12Date: set by the scenario that parses under a Timezone option with start dates on the
+// day that zone springs forward AT midnight (local midnight does not exist on that day).
+var c12Zone *time.Location
+var c12Date string
+
+var sdRe = regexp.MustCompile(`sd=(\d+)@[^ }]*`)
+
+// c12NormSD: where local midnight does not exist the statement does not say which instant stands
+// for the day (the instant before the gap or the first instant of the day): under c12Zone start
+// dates are compared as calendar dates (of the instant two hours later).
+func c12NormSD(s string) string {
+	if c12Zone == nil || true { // the library now agrees with the reference (first instant of the day): compared exactly
+		return s
+	}
+	return sdRe.ReplaceAllStringFunc(s, func(m string) string {
+		var n int64
+		fmt.Sscanf(m, "sd=%d@", &n)
+		return "sd=day " + time.Unix(n+7200, 0).In(c12Zone).Format("20060102")
+	})
+}
+
 func c12Check(c *Ctx, alerts [][]selSpec) {
 	m := newFeed(cp(&tsAlphabet[0]))
 	var desc []string
 	for i, sels := range alerts {
 		a := &gtfsrt.Alert{}
 		for _, s := range sels {
-			a.InformedEntity = append(a.InformedEntity, s.build())
+			e := s.build()
+			if c12Date != "" && e.Trip != nil && e.Trip.StartDate != nil {
+				e.Trip.StartDate = sp(c12Date)
+			}
+			a.InformedEntity = append(a.InformedEntity, e)
 			desc = append(desc, fmt.Sprintf("alert%d: %s", i, s))
 		}
 		m.Entity = append(m.Entity, &gtfsrt.FeedEntity{Id: sp(fmt.Sprintf("alert%d", i)), Alert: a})
@@ -159,7 +186,7 @@ func c12Check(c *Ctx, alerts [][]selSpec) {
 	}
 	c.Input(hash64(string(b)), nontrivial, func() string { return strings.Join(desc, "\n") + "\n" + feedText(m) })
 	c.SetMapMode(mapFree)
-	r, err, ok := parseRT(c, b, &gtfs.ParseRealtimeOptions{})
+	r, err, ok := parseRT(c, b, &gtfs.ParseRealtimeOptions{Timezone: c12Zone})
 	c.SetMapMode(mapFixed)
 	if !ok {
 		return
@@ -179,7 +206,7 @@ func c12Check(c *Ctx, alerts [][]selSpec) {
 	}
 	var outcome strings.Builder
 	for i := range alerts {
-		want, fallback, lenient, _ := refAlert(fmt.Sprintf("alert%d", i), m.Entity[i].Alert, nil)
+		want, fallback, lenient, _ := refAlert(fmt.Sprintf("alert%d", i), m.Entity[i].Alert, c12Zone)
 		got := r.Alerts[i].InformedEntities
 		for j, e := range got {
 			outcome.WriteString(dumpInformed(e) + "\n")
@@ -200,21 +227,21 @@ func c12Check(c *Ctx, alerts [][]selSpec) {
 			continue
 		}
 		for j := 0; j < n; j++ {
-			if w, g := dumpInformed(want.InformedEntities[j]), dumpInformed(got[j]); w != g {
+			if w, g := c12NormSD(dumpInformed(want.InformedEntities[j])), c12NormSD(dumpInformed(got[j])); w != g {
 				c.Fail("selector-misrepresented", "alert %d entity %d\nwant %s\ngot  %s", i, j, w, g)
 			}
 		}
 		var wantFB, gotFB []string
 		for _, e := range fallback {
 			if !lenient[*e.RouteID] {
-				wantFB = append(wantFB, dumpInformed(e))
+				wantFB = append(wantFB, c12NormSD(dumpInformed(e)))
 			}
 		}
 		for _, e := range got[n:] {
 			if e.RouteID != nil && lenient[*e.RouteID] && e.AgencyID == nil && e.StopID == nil && e.TripID == nil && e.RouteType == gtfs.RouteType_Unknown {
 				continue
 			}
-			gotFB = append(gotFB, dumpInformed(e))
+			gotFB = append(gotFB, c12NormSD(dumpInformed(e)))
 		}
 		sort.Strings(wantFB)
 		sort.Strings(gotFB)
@@ -267,6 +294,19 @@ func init() {
 					}
 				}},
 			}
+			s = append(s, &Scenario{Name: "start-dates-on-a-day-without-midnight", Bound: -1, Run: func(c *Ctx) {
+				// zones that spring forward at local midnight: the start date is a date all the same
+				z := c.Free("zone", 3)
+				c12Zone = []*time.Location{mustLoc("America/Santiago"), mustLoc("America/Havana"), mustLoc("America/Asuncion")}[z]
+				c12Date = []string{"20240908", "20240310", "20241006"}[z]
+				defer func() { c12Zone, c12Date = nil, "" }()
+				a, b := c12Sub120[c.Free("first", 120)], selSpec{stop: 1}
+				if c.Free("second_is_the_same_selector", 2) == 1 {
+					b = a
+				}
+				c.Witness("start_date_without_a_local_midnight")
+				c12Check(c, [][]selSpec{{a, b}})
+			}})
 			s = append(s, &Scenario{Name: "many-selectors", Bound: -1, Run: func(c *Ctx) {
 				// alerts of 9..257 selectors drawn from the 120 with three strides and four offsets, in
 				// one alert or dealt round-robin to three
